@@ -40,7 +40,8 @@ Cfg ==
         [leaves |-> { [op |-> o, s |-> x] : o \in {"str", "ins"},
                         x \in {<<97>>, <<65>>, <<91>>, <<123>>, <<64>>, <<233>>, <<201>>, <<97, 233>>, <<91, 65>>, <<>>} }
                     \cup { [op |-> "range", lo |-> 65, hi |-> 91], [op |-> "range", lo |-> 233, hi |-> 14912],
-                           [op |-> "range", lo |-> 98, hi |-> 97], [op |-> "range", lo |-> 123, hi |-> 64],     \* reversed: contain nothing [op |-> "skip", n |-> 1], [op |-> "skip", n |-> 2],
+                           [op |-> "range", lo |-> 98, hi |-> 97], [op |-> "range", lo |-> 123, hi |-> 64],     \* reversed: contain nothing
+                           [op |-> "skip", n |-> 1], [op |-> "skip", n |-> 2], [op |-> "skip", n |-> 3],
                            [op |-> "charby", set |-> "alpha"], P("eoi") },
          unary |-> {"seq", "lookp", "lookn", "rep", "opt"},
          sigma |-> {97, 65, 91, 123, 64, 96, 233, 201, 14912, 2309}]
